@@ -4940,11 +4940,8 @@ impl PeerConnectionInner {
             let remote_expects_media = if sdp_type == SdpType::Answer {
                 let remote_guard = self.remote_description.lock();
                 if let Some(remote) = remote_guard.as_ref() {
-                    // Find the matching remote section by mid
-                    remote
-                        .media_sections
-                        .iter()
-                        .find(|section| section.mid == mid)
+                    // The remote section this answer section responds to
+                    Self::remote_section_for(remote, &mid, Some(media_index))
                         .map(|section| {
                             // Remote expects media if their direction is sendrecv or sendonly
                             matches!(
@@ -5101,7 +5098,7 @@ impl PeerConnectionInner {
                 }
             }
 
-            self.populate_media_capabilities(&mut section, transceiver.kind(), sdp_type);
+            self.populate_media_capabilities(&mut section, transceiver.kind(), sdp_type, media_index);
             if sdp_type == SdpType::Answer && !remote_offered_rtcp_mux {
                 section.attributes.retain(|attr| attr.key != "rtcp-mux");
             }
@@ -5328,9 +5325,14 @@ impl PeerConnectionInner {
         section: &mut MediaSection,
         kind: MediaKind,
         sdp_type: SdpType,
+        media_index: usize,
     ) {
         section.apply_config(&self.config);
-        if let Some(caps) = self.reinvite_answer_audio_capabilities(&section.mid, kind, sdp_type) {
+        // The sections of an answer follow the offer's order: an answer section consults
+        // the remote section at the same index. (A lookup by MID picks the wrong section for
+        // MID-less offers and when the transceiver carries a MID of its own.)
+        let answer_index = (sdp_type == SdpType::Answer).then_some(media_index);
+        if let Some(caps) = self.reinvite_answer_audio_capabilities(answer_index, kind, sdp_type) {
             Self::apply_audio_capabilities(section, &caps);
         }
 
@@ -5338,15 +5340,16 @@ impl PeerConnectionInner {
         // echo only RTX from the remote offer when apt= maps to an answered primary PT.
         if sdp_type == SdpType::Answer && kind == MediaKind::Video {
             strip_rtx_from_section(section);
-            self.merge_remote_rtx_into_answer(section);
+            self.merge_remote_rtx_into_answer(section, answer_index);
         }
 
         // Browsers reject descriptions with duplicate extension ids.
-        let mut used_extmap_ids = self.get_remote_extmap_ids(&section.mid);
+        let mut used_extmap_ids = self.get_remote_extmap_ids(&section.mid, answer_index);
 
         // Add extmap for Video
         if kind == MediaKind::Video {
-            let (mut rid_id, mut repaired_rid_id) = self.get_remote_video_extmap_ids(&section.mid);
+            let (mut rid_id, mut repaired_rid_id) =
+                self.get_remote_video_extmap_ids(&section.mid, answer_index);
 
             if sdp_type == SdpType::Offer && self.config.transport_mode != TransportMode::Rtp {
                 // If not found in remote (new transceiver), use defaults
@@ -5363,7 +5366,7 @@ impl PeerConnectionInner {
 
         // Add abs-send-time extmap
         let mut abs_send_time_id =
-            self.get_remote_extmap_id(&section.mid, crate::sdp::ABS_SEND_TIME_URI);
+            self.get_remote_extmap_id(&section.mid, answer_index, crate::sdp::ABS_SEND_TIME_URI);
         if sdp_type == SdpType::Offer
             && abs_send_time_id.is_none()
             && self.config.transport_mode != TransportMode::Rtp
@@ -5381,7 +5384,8 @@ impl PeerConnectionInner {
         // remote ID when offered; WebRTC offers use a default ID so bundled
         // audio/video can still be demuxed when payload types overlap.
         if self.config.sdp_compatibility != crate::config::SdpCompatibilityMode::LegacySip {
-            let mut sdes_mid_id = self.get_remote_extmap_id(&section.mid, crate::sdp::SDES_MID_URI);
+            let mut sdes_mid_id =
+                self.get_remote_extmap_id(&section.mid, answer_index, crate::sdp::SDES_MID_URI);
             if sdp_type == SdpType::Offer
                 && sdes_mid_id.is_none()
                 && self.config.transport_mode != TransportMode::Rtp
@@ -5437,9 +5441,22 @@ impl PeerConnectionInner {
             .unwrap_or_else(|| vec![default_caps])
     }
 
+    /// The remote section a local section corresponds to: for an answer the remote section
+    /// at the same index, otherwise the remote section carrying the same MID.
+    fn remote_section_for<'a>(
+        desc: &'a SessionDescription,
+        mid: &str,
+        answer_index: Option<usize>,
+    ) -> Option<&'a MediaSection> {
+        match answer_index {
+            Some(index) => desc.media_sections.get(index),
+            None => desc.media_sections.iter().find(|s| s.mid == mid),
+        }
+    }
+
     fn reinvite_answer_audio_capabilities(
         &self,
-        mid: &str,
+        answer_index: Option<usize>,
         kind: MediaKind,
         sdp_type: SdpType,
     ) -> Option<Vec<AudioCapability>> {
@@ -5449,17 +5466,10 @@ impl PeerConnectionInner {
 
         let remote = self.remote_description.lock();
         let remote_desc = remote.as_ref()?;
-        let remote_section = if mid.is_empty() {
-            remote_desc
-                .media_sections
-                .iter()
-                .find(|section| section.kind == kind)
-        } else {
-            remote_desc
-                .media_sections
-                .iter()
-                .find(|section| section.kind == kind && section.mid == mid)
-        }?;
+        let remote_section = remote_desc
+            .media_sections
+            .get(answer_index?)
+            .filter(|section| section.kind == kind)?;
 
         let local_caps = Self::configured_audio_capabilities(&self.config);
         let caps = Self::derive_answer_audio_capabilities(remote_section, &local_caps);
@@ -5534,21 +5544,12 @@ impl PeerConnectionInner {
 
     /// Echo remote-offered RTX payload types into a local answer when the
     /// associated primary PT is present in the answer media section.
-    fn merge_remote_rtx_into_answer(&self, section: &mut MediaSection) {
+    fn merge_remote_rtx_into_answer(&self, section: &mut MediaSection, answer_index: Option<usize>) {
         let remote = self.remote_description.lock();
         let Some(desc) = remote.as_ref() else {
             return;
         };
-        let Some(remote_section) = desc
-            .media_sections
-            .iter()
-            .find(|s| s.mid == section.mid)
-            .or_else(|| {
-                desc.media_sections
-                    .iter()
-                    .find(|s| s.kind == MediaKind::Video)
-            })
-        else {
+        let Some(remote_section) = Self::remote_section_for(desc, &section.mid, answer_index) else {
             return;
         };
 
@@ -5583,20 +5584,33 @@ impl PeerConnectionInner {
         }
     }
 
-    fn get_remote_video_extmap_ids(&self, mid: &str) -> (Option<String>, Option<String>) {
-        let rid_id =
-            self.get_remote_extmap_id(mid, "urn:ietf:params:rtp-hdrext:sdes:rtp-stream-id");
+    fn get_remote_video_extmap_ids(
+        &self,
+        mid: &str,
+        answer_index: Option<usize>,
+    ) -> (Option<String>, Option<String>) {
+        let rid_id = self.get_remote_extmap_id(
+            mid,
+            answer_index,
+            "urn:ietf:params:rtp-hdrext:sdes:rtp-stream-id",
+        );
         let repaired_rid_id = self.get_remote_extmap_id(
             mid,
+            answer_index,
             "urn:ietf:params:rtp-hdrext:sdes:repaired-rtp-stream-id",
         );
         (rid_id, repaired_rid_id)
     }
 
-    fn get_remote_extmap_id(&self, mid: &str, uri: &str) -> Option<String> {
+    fn get_remote_extmap_id(
+        &self,
+        mid: &str,
+        answer_index: Option<usize>,
+        uri: &str,
+    ) -> Option<String> {
         let remote = self.remote_description.lock();
         if let Some(desc) = &*remote {
-            let remote_section = desc.media_sections.iter().find(|s| s.mid == mid)?;
+            let remote_section = Self::remote_section_for(desc, mid, answer_index)?;
             for attr in &remote_section.attributes {
                 if attr.key != "extmap" {
                     continue;
@@ -5613,11 +5627,15 @@ impl PeerConnectionInner {
     }
 
     /// All extension ids the remote has mapped on the given m-line.
-    fn get_remote_extmap_ids(&self, mid: &str) -> std::collections::HashSet<u8> {
+    fn get_remote_extmap_ids(
+        &self,
+        mid: &str,
+        answer_index: Option<usize>,
+    ) -> std::collections::HashSet<u8> {
         let mut ids = std::collections::HashSet::new();
         let remote = self.remote_description.lock();
         if let Some(desc) = &*remote
-            && let Some(remote_section) = desc.media_sections.iter().find(|s| s.mid == mid)
+            && let Some(remote_section) = Self::remote_section_for(desc, mid, answer_index)
         {
             for attr in &remote_section.attributes {
                 if attr.key == "extmap"
